@@ -16,6 +16,7 @@ import (
 	"fmt"
 	"os"
 	"path/filepath"
+	"regexp"
 	"strings"
 	"sync"
 	"time"
@@ -90,6 +91,7 @@ type recipe struct {
 
 	// byte level / map level
 	garble      map[base.BlockItemType]bool
+	emptied     map[base.BlockItemType]bool // item file reduced to its header line with count 0 (decodes to nothing)
 	badChecksum map[base.BlockItemType]bool
 	dropItem    map[base.BlockItemType]bool
 	mapOtherNet bool
@@ -217,7 +219,7 @@ func corruptTree(t *treeSpec, index int) {
 // base (untampered) recipe
 func (g *gen) base(height int64, nops, nsts int, suf bool) *recipe {
 	rc := &recipe{Height: height, NOps: nops, NSts: nsts, Suf: suf,
-		garble: map[base.BlockItemType]bool{}, badChecksum: map[base.BlockItemType]bool{}, dropItem: map[base.BlockItemType]bool{}}
+		garble: map[base.BlockItemType]bool{}, emptied: map[base.BlockItemType]bool{}, badChecksum: map[base.BlockItemType]bool{}, dropItem: map[base.BlockItemType]bool{}}
 	rc.point = base.NewPoint(base.Height(height), base.Round(g.r.Intn(3)))
 	if height > 0 {
 		rc.prev = valuehash.RandomSHA256()
@@ -345,6 +347,9 @@ const (
 	kStsSuffrageNotInTree     = 12
 	kStsTreeCorruptRoot       = 13
 	kManifestStsRootKeep      = 14 // (internal)
+	kStsItemDropped           = 15 // no states item in the (re-signed) map; tree and manifest still commit to the states
+	kStsEmptied               = 16 // states item with count 0; tree and manifest still commit to the states
+	kStsTreeEmptied           = 17 // states tree item with count 0; states and manifest root kept
 	// operations
 	kOpsExtra                 = 20
 	kOpsMissing               = 21
@@ -358,6 +363,10 @@ const (
 	kOpsNotInStateNode        = 29 // what the real Writer produces for a failed operation: node in the tree, no operation in the file
 	kManifestOpsRootKeep      = 30 // (internal)
 	kOpsTreeCorruptLeaf       = 31
+	kOpsItemDropped           = 32
+	kOpsEmptied               = 33
+	kOpsTreeEmptied           = 34
+	kOpsNoTree                = 35 // operations item present, no tree item, manifest without operations root
 	// proposal
 	kManifestProposalRandom = 40
 	kPrOtherHeight          = 41
@@ -397,6 +406,8 @@ var kindName = map[int]string{
 	60: "bad-checksum-proposal", 61: "bad-checksum-operations", 62: "bad-checksum-operations_tree", 63: "bad-checksum-states",
 	64: "bad-checksum-states_tree", 65: "bad-checksum-voteproofs", kStsGarbled: "sts-garbled", kOpsGarbled: "ops-garbled",
 	kStsTreeGarbled: "ststree-garbled", kMapOtherNet: "map-signed-other-network", kItemNotFed: "item-not-written-to-importer",
+	kStsItemDropped: "sts-item-dropped", kStsEmptied: "sts-item-emptied", kStsTreeEmptied: "ststree-emptied",
+	kOpsItemDropped: "ops-item-dropped", kOpsEmptied: "ops-item-emptied", kOpsTreeEmptied: "opstree-emptied", kOpsNoTree: "ops-without-tree",
 	kWriter: "genuine(block-writer)", kWriterNotInState: "genuine(block-writer,failed-operation)",
 }
 
@@ -408,6 +419,7 @@ var allKinds = []int{
 	kManifestProposalRandom, kPrOtherHeight, kPrOtherNet, kPrGarbled,
 	kVpsOtherHeight, kAvpOtherRound, kAvpOtherBlock, kIvpOtherNet, kAvpOtherNet, kVpsSwapped, kVpsGarbled,
 	60, 61, 62, 63, 64, 65, kStsGarbled, kOpsGarbled, kStsTreeGarbled, kMapOtherNet, kItemNotFed,
+	kStsItemDropped, kStsEmptied, kStsTreeEmptied, kOpsItemDropped, kOpsEmptied, kOpsTreeEmptied, kOpsNoTree,
 }
 
 func group(k int) int { return k / 20 * 20 } // 0 states, 20 ops, 40 proposal(+vps 50..), 60 checksums...
@@ -472,6 +484,43 @@ func (g *gen) tamper(rc *recipe, want []int) map[int]bool {
 				continue
 			}
 			corruptTree(&rc.ststree, 0)
+		case kStsItemDropped:
+			if len(rc.sts) < 1 {
+				continue
+			}
+			rc.dropItem[base.BlockItemStates] = true
+		case kStsEmptied:
+			if len(rc.sts) < 1 {
+				continue
+			}
+			rc.emptied[base.BlockItemStates] = true
+		case kStsTreeEmptied:
+			if !rc.ststree.present {
+				continue
+			}
+			rc.emptied[base.BlockItemStatesTree] = true
+		case kOpsItemDropped:
+			if len(rc.ops) < 1 {
+				continue
+			}
+			rc.dropItem[base.BlockItemOperations] = true
+		case kOpsEmptied:
+			if len(rc.ops) < 1 {
+				continue
+			}
+			rc.emptied[base.BlockItemOperations] = true
+		case kOpsTreeEmptied:
+			if !rc.opstree.present {
+				continue
+			}
+			rc.emptied[base.BlockItemOperationsTree] = true
+		case kOpsNoTree:
+			if len(rc.ops) < 1 {
+				continue
+			}
+			rc.dropItem[base.BlockItemOperationsTree] = true
+			rc.mOpsRoot = nil
+			kinds[kManifestOpsRootKeep] = true
 		case kStsNoTree:
 			if len(rc.sts) < 1 {
 				continue
@@ -585,12 +634,14 @@ func (g *gen) build(height int64, nops, nsts int, suf bool, want []int) *recipe 
 	if kinds[kVpsGarbled] {
 		rc.garble[base.BlockItemVoteproofs] = true
 	}
-	for k := range kinds {
-		if _, ok := kindName[k]; ok {
+	// the effective kinds in the order they were applied (the order matters: dup then replaced != replaced then dup)
+	seen := map[int]bool{}
+	for _, k := range want {
+		if _, ok := kindName[k]; ok && kinds[k] && !seen[k] {
+			seen[k] = true
 			rc.Kinds = append(rc.Kinds, k)
 		}
 	}
-	sortInts(rc.Kinds)
 
 	return rc
 }
@@ -646,7 +697,7 @@ func (g *gen) write(rc *recipe, root string) base.BlockMap {
 	m, err := fs.Save(ctx)
 	must(err)
 
-	if len(rc.garble) > 0 || len(rc.badChecksum) > 0 || len(rc.dropItem) > 0 || rc.mapOtherNet {
+	if len(rc.garble) > 0 || len(rc.emptied) > 0 || len(rc.badChecksum) > 0 || len(rc.dropItem) > 0 || rc.mapOtherNet {
 		m = g.rewrite(rc, root, m)
 	}
 
@@ -683,6 +734,8 @@ func asACCEPT(vp base.Voteproof) base.ACCEPTVoteproof {
 
 	return acceptWrap{vp}
 }
+
+var countRe = regexp.MustCompile(`"count":\d+`)
 
 func checksum(b []byte) string {
 	cw := util.NewHashChecksumWriter(sha256.New())
@@ -750,6 +803,14 @@ func (g *gen) rewrite(rc *recipe, root string, old base.BlockMap) base.BlockMap 
 			b := readItemFile(p, gz)
 			i := bytes.IndexByte(b, '\n')
 			nb := append(append([]byte{}, b[:i+1]...), []byte("{\"_hint\":\"no-such-thing-v0.0.1\",\"x\":[1,2\n")...)
+			writeItemFile(p, gz, nb)
+			cks = checksum(nb)
+		}
+		if rc.emptied[t] && !rc.garble[t] {
+			p, gz := g.itemPath(root, height, t)
+			b := readItemFile(p, gz)
+			i := bytes.IndexByte(b, '\n')
+			nb := countRe.ReplaceAll(append([]byte{}, b[:i+1]...), []byte(`"count":0`))
 			writeItemFile(p, gz, nb)
 			cks = checksum(nb)
 		}
@@ -838,7 +899,7 @@ func (g *gen) viaWriter(height int64, nin, nnot, nsts int, suf bool, root string
 		nsts = nin // an in-state operation produces at least one state
 	}
 	rc := &recipe{Height: height, NOps: nin, NSts: nsts, Suf: suf,
-		garble: map[base.BlockItemType]bool{}, badChecksum: map[base.BlockItemType]bool{}, dropItem: map[base.BlockItemType]bool{}}
+		garble: map[base.BlockItemType]bool{}, emptied: map[base.BlockItemType]bool{}, badChecksum: map[base.BlockItemType]bool{}, dropItem: map[base.BlockItemType]bool{}}
 	rc.point = base.NewPoint(base.Height(height), base.Round(g.r.Intn(3)))
 	var previous base.Manifest
 	if height > 0 {
@@ -930,6 +991,10 @@ type observed struct {
 	Sub            [4]bool `json:"validator_sub"` // proposal, operations, states, voteproofs
 	ValidImp       *bool   `json:"validator_on_imported,omitempty"`
 	AvpForManifest bool    `json:"avp_for_manifest"`
+	OpsMatch       bool    `json:"ops_match_tree_and_manifest"` // the property's second clause, evaluated by the harness itself
+	StsMatch       bool    `json:"sts_match_tree_and_manifest"`
+	DupTreeNodes   [2]bool `json:"tree_has_duplicate_nodes"` // (ops, sts)
+	EmptyWithRoot  [2]bool `json:"empty_with_root"` // (ops, sts): nothing stored, empty tree, yet the manifest names a root
 	OpsAllValid    bool    `json:"ops_all_valid"`
 	StsAllValid    bool    `json:"sts_all_valid"`
 	errs           []string
@@ -1044,6 +1109,64 @@ func (g *gen) runSubChecks(root string, height base.Height, m base.BlockMap, ob 
 	ob.Sub[0] = pr != nil && pr.IsValid(e.networkID) == nil && base.IsValidProposalWithManifest(pr, mf) == nil
 	ob.Sub[1] = isaacblock.IsValidOperationsOfBlock(opstree, ops, mf, e.networkID, nil) == nil
 	ob.Sub[2] = isaacblock.IsValidStatesOfBlock(ststree, sts, mf, e.networkID, nil) == nil
+	// "its operations and states must match the manifest's tree roots", not through base/block.go:
+	// same number, the tree's node keys are exactly the operations' fact hashes / the states' hashes, the tree's root is the manifest's
+	match := func(tr fixedtree.Tree, ids []string, root util.Hash, isops bool) bool {
+		if tr.Len() != len(ids) {
+			return false
+		}
+		if len(ids) == 0 {
+			return root == nil
+		}
+		set := map[string]int{}
+		for _, id := range ids {
+			set[id]++
+		}
+		ok := true
+		_ = tr.Traverse(func(_ uint64, n fixedtree.Node) (bool, error) {
+			k := n.Key()
+			if isops {
+				k = strings.TrimSuffix(k, "-")
+			}
+			if set[k] != 1 {
+				ok = false
+			}
+			set[k]--
+
+			return true, nil
+		})
+
+		return ok && root != nil && tr.Root().Equal(root)
+	}
+	opids := make([]string, len(ops))
+	for i := range ops {
+		opids[i] = ops[i].Fact().Hash().String()
+	}
+	stids := make([]string, len(sts))
+	for i := range sts {
+		stids[i] = sts[i].Hash().String()
+	}
+	dupNodes := func(tr fixedtree.Tree, isops bool) bool {
+		seen, dup := map[string]bool{}, false
+		_ = tr.Traverse(func(_ uint64, n fixedtree.Node) (bool, error) {
+			k := n.Key()
+			if isops {
+				k = strings.TrimSuffix(k, "-")
+			}
+			if seen[k] {
+				dup = true
+			}
+			seen[k] = true
+
+			return true, nil
+		})
+
+		return dup
+	}
+	ob.DupTreeNodes = [2]bool{dupNodes(opstree, true), dupNodes(ststree, false)}
+	ob.OpsMatch = match(opstree, opids, mf.OperationsTree(), true)
+	ob.StsMatch = match(ststree, stids, mf.StatesTree(), false)
+	ob.EmptyWithRoot = [2]bool{len(ops) == 0 && opstree.Len() == 0 && mf.OperationsTree() != nil, len(sts) == 0 && ststree.Len() == 0 && mf.StatesTree() != nil}
 	ob.OpsAllValid, ob.StsAllValid = true, true
 	for i := range ops {
 		if ops[i].IsValid(e.networkID) != nil {
@@ -1117,6 +1240,13 @@ func (rc *recipe) coq(m base.BlockMap) string {
 		return item(present(t), !rc.badChecksum[t], decodes, content)
 	}
 	tree := func(ts treeSpec, isops bool) string {
+		t := base.BlockItemStatesTree
+		if isops {
+			t = base.BlockItemOperationsTree
+		}
+		if rc.emptied[t] {
+			return "(mkTree [] 0%N true)" // header with count 0: decodes to the empty tree
+		}
 		keys := make([]string, len(ts.keys))
 		for i, k := range ts.keys {
 			if isops {
@@ -1138,6 +1268,12 @@ func (rc *recipe) coq(m base.BlockMap) string {
 	sts := make([]string, len(rc.sts))
 	for i, s := range rc.sts {
 		sts[i] = fmt.Sprintf("(mkSt %s %s %s %s)", in.hash(s.st.Hash()), vh.Z(int64(s.st.Height())), vh.Bool(s.valid), vh.Bool(s.suffrage))
+	}
+	if rc.emptied[base.BlockItemOperations] {
+		ops = nil // header with count 0: decodes to no operation
+	}
+	if rc.emptied[base.BlockItemStates] {
+		sts = nil
 	}
 	vp := func(v vpSpec) string {
 		nb := "None"
@@ -1303,6 +1439,21 @@ func runCase(e *env, sp spec, dir string) *caseOut {
 				res.Fail("import-stored-but-validator-rejects", fmt.Sprintf("%s [%s]", vierr, strings.Join(sp.Names, ",")), sp)
 			}
 		}
+		// second clause of the property on the stored block, independent of the validator's own tree checks
+		if vi && ob.HasSub {
+			for i, what := range []string{"operations", "states"} {
+				matched := []bool{ob.OpsMatch, ob.StsMatch}[i]
+				switch {
+				case matched:
+				case ob.EmptyWithRoot[i]:
+					res.Fail("validator-skips-root-comparison-when-empty", fmt.Sprintf("stored and accepted by the validator: no %s, empty %s tree, but the manifest names a %s root [%s]", what, what, what, strings.Join(sp.Names, ",")), sp)
+				case ob.DupTreeNodes[i]:
+					res.Fail("validator-accepts-tree-with-duplicate-nodes", fmt.Sprintf("stored and accepted by the validator: the %s tree names one of the %s twice, another one of the block is in no node [%s]", what, what, strings.Join(sp.Names, ",")), sp)
+				default:
+					res.Fail("validator-accepts-"+what+"-not-matching-tree", fmt.Sprintf("stored and accepted by the validator although the %s do not match the %s tree / the manifest's root [%s]", what, what, strings.Join(sp.Names, ",")), sp)
+				}
+			}
+		}
 		// the stored files are the ones the signed map names
 		m.Items(func(item base.BlockMapItem) bool {
 			p, gz := g.itemPath(dst, height, item.Type())
@@ -1367,6 +1518,15 @@ func main() {
 		run(spec{Height: h, NOps: 3, NSts: 3, Suf: true})
 		for _, k := range allKinds {
 			run(spec{Height: h, NOps: 3, NSts: 3, Suf: true, Kinds: []int{k}})
+		}
+	}
+	// boundary: nothing stored but tree / manifest still commit (and the reverse), singly (above) and in the pairs that meet
+	for _, ks := range [][]int{{kStsEmptied, kStsTreeEmptied}, {kStsItemDropped, kStsTreeEmptied}, {kOpsEmptied, kOpsTreeEmptied},
+		{kOpsItemDropped, kOpsTreeEmptied}, {kStsItemDropped, kOpsItemDropped}, {kStsEmptied, kOpsEmptied}, {kStsNoTree, kOpsNoTree},
+		{kOpsDup, kOpsReplaced}, {kStsDup, kStsReplaced}, {kOpsReplaced, kOpsDup}, {kStsReplaced, kStsDup}} {
+		for _, h := range []int64{7, 0} {
+			run(spec{Height: h, NOps: 3, NSts: 3, Suf: h == 7, Kinds: ks})
+			run(spec{Height: h, NOps: 1, NSts: 1, Kinds: ks})
 		}
 	}
 	// genuine blocks through the repository's block Writer
